@@ -935,7 +935,7 @@ theorem kindOfId_user (incl : Bool) (decls : List Decl) (i : Nat) (d : Decl) (hd
   simp [kindOfId, h, hd]
 
 theorem acceptsOf_user (orc : Oracle) (incl : Bool) (decls : List Decl) (i : Nat) (d : Decl) (hd : decls[i]? = some d)
-    (v : Str) : acceptsOf orc incl decls (firstUserId + i) v = (typed orc d.kind.base v).isSome := by
+    (v : Str) : acceptsOf orc incl decls (firstUserId + i) v = (d.kind.supported && (typed orc d.kind.base v).isSome) := by
   simp [acceptsOf, kindOfId_user incl decls i d hd]
 
 theorem run_bare_dash (tbl : Table) (acc : Accepts) (files : Files) (seen : List Str) (a : PAcc) (args : List Str) :
@@ -1006,7 +1006,7 @@ theorem encodeRune_head (r : Int) (hne : r ≠ 45) : (encodeRune r).head? ≠ so
 theorem declared_short_valid (orc : Oracle) (incl : Bool) (decls : List Decl) (es : Entries)
     (hb : build incl decls = some es) (i : Nat) (d : Decl) (hd : decls[i]? = some d)
     (h0 : 0 < d.single) (h1 : d.single ≤ 1114111) (hs : d.single < 55296 ∨ 57343 < d.single) (h45 : d.single ≠ 45)
-    (hk : d.kind.isBool = false) (v : Str) (hv : (typed orc d.kind.base v).isSome = true) :
+    (hk : d.kind.isBool = false) (hsup : d.kind.supported = true) (v : Str) (hv : (typed orc d.kind.base v).isSome = true) :
     (Spell.shortSep [] (encodeRune d.single) ⟨firstUserId + i, false⟩ v).Valid (tableOf es) (acceptsOf orc incl decls) ∧
     (Spell.shortEq [] (encodeRune d.single) ⟨firstUserId + i, false⟩ v).Valid (tableOf es) (acceptsOf orc incl decls) := by
   have ht := (build_spec incl decls es hb i d hd).1 (by omega)
@@ -1015,7 +1015,7 @@ theorem declared_short_valid (orc : Oracle) (incl : Bool) (decls : List Decl) (e
   have hh : (flagKeys [] ++ encodeRune d.single).head? ≠ some 45 := by
     simpa [flagKeys] using encodeRune_head d.single h45
   have ha : acceptsOf orc incl decls (firstUserId + i) v = true := by
-    rw [acceptsOf_user orc incl decls i d hd]; exact hv
+    rw [acceptsOf_user orc incl decls i d hd]; simp [hsup, hv]
   have hf : FlagsOK (tableOf es) (acceptsOf orc incl decls) [] := by intro x hx; simp at hx
   exact ⟨⟨⟨hf, ht, rfl, hr, hh⟩, by simpa [Spell.accepted, Spell.last] using ha⟩,
          ⟨⟨hf, ht, rfl, hr, hh⟩, by simpa [Spell.accepted, Spell.last] using ha⟩⟩
@@ -1023,7 +1023,7 @@ theorem declared_short_valid (orc : Oracle) (incl : Bool) (decls : List Decl) (e
 /-- … and the long spellings of a declared value-taking option whose name contains no `=` -/
 theorem declared_long_valid (orc : Oracle) (incl : Bool) (decls : List Decl) (es : Entries)
     (hb : build incl decls = some es) (i : Nat) (d : Decl) (hd : decls[i]? = some d) (n : Str)
-    (hn : d.name = some n) (heq : 61 ∉ n) (hk : d.kind.isBool = false) (v : Str)
+    (hn : d.name = some n) (heq : 61 ∉ n) (hk : d.kind.isBool = false) (hsup : d.kind.supported = true) (v : Str)
     (hv : (typed orc d.kind.base v).isSome = true) :
     (Spell.longEq n ⟨firstUserId + i, false⟩ v).Valid (tableOf es) (acceptsOf orc incl decls) ∧
     (Spell.longSep n ⟨firstUserId + i, false⟩ v).Valid (tableOf es) (acceptsOf orc incl decls) := by
@@ -1044,7 +1044,7 @@ theorem declared_long_valid (orc : Oracle) (incl : Bool) (decls : List Decl) (es
         exact ⟨d, List.mem_of_getElem? hd, by simp [hn]⟩
     rw [this] at ht; cases ht
   have ha : acceptsOf orc incl decls (firstUserId + i) v = true := by
-    rw [acceptsOf_user orc incl decls i d hd]; exact hv
+    rw [acceptsOf_user orc incl decls i d hd]; simp [hsup, hv]
   exact ⟨⟨⟨ht, rfl, heq, hne⟩, by simpa [Spell.accepted, Spell.last] using ha⟩,
          ⟨⟨ht, rfl, heq, hne⟩, by simpa [Spell.accepted, Spell.last] using ha⟩⟩
 
@@ -1102,11 +1102,11 @@ theorem linesOf_crlf (ls : List Str) (h : ∀ l ∈ ls, 10 ∉ l) :
 
 /-! ### the store: each variable sees exactly its own `Set` calls, in order -/
 
-theorem setVar_eq (orc : Oracle) (k : Kind) (cur : Var) (raw : Str) :
+theorem setVar_eq (orc : Oracle) (k : Kind) (cur : Var) (raw : Str) (hs : k.supported = true) :
     setVar orc k cur raw =
       (typed orc k.base raw).map (fun t => if k.slice || k.base == .log then cur ++ [t] else [t]) := by
   obtain ⟨b, sl⟩ := k
-  cases b <;> cases sl <;> simp [setVar, typed, Option.map] <;> (try split <;> simp_all)
+  cases b <;> cases sl <;> simp [setVar, typed, Option.map, Kind.supported] at hs ⊢ <;> (try split <;> simp_all)
 
 /-- one `Set` call on the variable of option `id` (an error leaves it as it was) -/
 def stepVar (orc : Oracle) (incl : Bool) (decls : List Decl) (id : Nat) (cur : Var) (raw : Str) : Var :=
@@ -1168,22 +1168,23 @@ theorem get_applySets (orc : Oracle) (incl : Bool) (decls : List Decl) (sets : L
     by_cases h : p.1 = id <;> simp [h]
 
 theorem stepVar_eq (orc : Oracle) (incl : Bool) (decls : List Decl) (id : Nat) (k : Kind)
-    (hk : kindOfId incl decls id = some k) (cur : Var) (raw : Str) :
+    (hk : kindOfId incl decls id = some k) (hsup : k.supported = true) (cur : Var) (raw : Str) :
     stepVar orc incl decls id cur raw =
       match typed orc k.base raw with
       | some t => if k.slice || k.base == .log then cur ++ [t] else [t]
       | none => cur := by
-  simp only [stepVar, hk, setVar_eq]
+  simp only [stepVar, hk, setVar_eq orc k cur raw hsup]
   cases typed orc k.base raw <;> rfl
 
 theorem foldl_append_kind (orc : Oracle) (incl : Bool) (decls : List Decl) (id : Nat) (k : Kind)
-    (hk : kindOfId incl decls id = some k) (ha : (k.slice || k.base == .log) = true) (raws : List Str) :
+    (hk : kindOfId incl decls id = some k) (hsup : k.supported = true) (ha : (k.slice || k.base == .log) = true)
+    (raws : List Str) :
     ∀ cur, raws.foldl (stepVar orc incl decls id) cur = cur ++ raws.filterMap (typed orc k.base) := by
   induction raws with
   | nil => intro cur; simp
   | cons r rs ih =>
     intro cur
-    simp only [List.foldl_cons, ih, stepVar_eq orc incl decls id k hk, ha, if_true]
+    simp only [List.foldl_cons, ih, stepVar_eq orc incl decls id k hk hsup, ha, if_true]
     cases h : typed orc k.base r <;> simp [List.filterMap_cons, h]
 
 /-- the last element alone, or `d` if there is none -/
@@ -1195,12 +1196,15 @@ def lastOr (l : List String) (d : Var) : Var :=
 theorem foldl_scalar_kind (orc : Oracle) (incl : Bool) (decls : List Decl) (id : Nat) (k : Kind)
     (hk : kindOfId incl decls id = some k) (ha : (k.slice || k.base == .log) = false) (raws : List Str) :
     ∀ cur, raws.foldl (stepVar orc incl decls id) cur = lastOr (raws.filterMap (typed orc k.base)) cur := by
+  have hsup : k.supported = true := by
+    have : k.slice = false := by cases hsl : k.slice <;> simp_all
+    simp [Kind.supported, this]
   unfold lastOr
   induction raws with
   | nil => intro cur; simp
   | cons r rs ih =>
     intro cur
-    simp only [List.foldl_cons, ih, stepVar_eq orc incl decls id k hk, ha]
+    simp only [List.foldl_cons, ih, stepVar_eq orc incl decls id k hk hsup, ha]
     cases h : typed orc k.base r with
     | none => simp [List.filterMap_cons, h]
     | some t =>
@@ -1289,8 +1293,8 @@ theorem exDeclValid : ∀ sp ∈ [Spell.shortSep [] (encodeRune 110) ⟨firstUse
   simp only [List.mem_cons, List.mem_nil_iff, or_false] at hsp
   rcases hsp with rfl | rfl
   · exact (declared_short_valid [] false exDecls exEs exBuild 0 _ rfl (by decide) (by decide) (by decide) (by decide)
-      rfl [120] rfl).1
-  · exact (declared_long_valid [] false exDecls exEs exBuild 0 _ rfl [110, 97, 109, 101] rfl (by decide) rfl [121] rfl).1
+      rfl rfl [120] rfl).1
+  · exact (declared_long_valid [] false exDecls exEs exBuild 0 _ rfl [110, 97, 109, 101] rfl (by decide) rfl rfl [121] rfl).1
 
 
 end Cmd
